@@ -719,7 +719,7 @@ fire("c05-integrate-renaming-map-filtered", "C05", "funsor/integrate.py",
      "            k: to_funsor(\n                v, self.integrand.inputs.get(k, self.log_measure.inputs.get(k))\n            )\n            for k, v in alpha_subs.items()\n",
      "            k: to_funsor(v, self.integrand.inputs[k])\n            for k, v in alpha_subs.items()\n            if k in self.integrand.inputs\n", "R05.1", "Integrate._alpha_convert")
 fire("c05-step-names-sorted-independently", "C05", "funsor/sum_product.py",
-     "    step = OrderedDict(sorted(step.items()))\n    prev_to_drop = dict(zip(step.keys(), drop))\n    curr_to_drop = dict(zip(step.values(), drop))\n",
+     "    prev_to_drop = dict(zip(step.keys(), drop))\n    curr_to_drop = dict(zip(step.values(), drop))\n",
      "    prev_to_drop = dict(zip(sorted(step.keys()), drop))\n    curr_to_drop = dict(zip(sorted(step.values()), drop))\n", "R05.1", "sum_product", count=2, nth=0)
 fire("c16-add-refills-dispatch-cache", "C16", REGISTRY,
      "        signature = tuple(map(typing_wrap, signature))\n        super().add(signature, func)\n",
